@@ -96,15 +96,15 @@ def run(ctx):
     h_ls = ctx.build_harness('c06_ls', 'c06_ls.cpp')
     h_rt = ctx.build_harness('c06_rt', 'c06_rt.cpp')
     quick = ctx.tier == 'quick'
-    seeds = [ctx.seed] if quick else [ctx.seed + 1000 * k for k in range(6)]
+    seeds = [ctx.seed] if quick else [ctx.seed + 1000 * k for k in range(5)]
     if ctx.replay:
         try:
             rp = json.load(open(ctx.replay))
             seeds = [int(rp.get('seed', ctx.seed))]
         except Exception:
             pass
-    n_ls = 10000 if quick else 40000
-    n_rt = 10000 if quick else 40000
+    n_ls = 10000 if quick else 30000
+    n_rt = 10000 if quick else 30000
     late_total = 0
     for sd in seeds:
         # ---- lock-step
